@@ -362,7 +362,7 @@ class Categorize(Factory, Container):
             else:
                 raise JsonFormatException(json, "Categorize.bins")
 
-            out = Categorize.ed(entries, contentType, **bins)
+            out = Categorize.ed(entries, contentType, bins)
             out.quantity.name = nameFromParent if name is None else name
             return out.specialize()
 
